@@ -14,7 +14,7 @@ G = O.G
 
 INFO = {
     "bounds": {
-        "quick": "part 1: trees T01,T05,T07,T13b: every user state (sampled partitions) -> all core writers (write_config, write_autoconf, write_min_config, sync_deps) and the real kconfgen main() for formats config/header/cmake/json/json_menus/savedefconfig run twice: no mutating operation on any destination the second time; then one symbolic operation: exactly the destinations whose text changes are rewritten. part 2: write_config(save_old=True) over a complete previous file (regular file or symlink) with a symbolic crash point (before any mutating operation or inside a write after p characters)",
+        "quick": "part 1: trees T01,T05,T07,T13b: every user state (sampled partitions) -> all core writers (write_config, write_autoconf, write_min_config, sync_deps) and the real kconfgen main() for formats config/header/cmake/json/json_menus/savedefconfig run twice: no mutating operation on any destination the second time; then one symbolic operation: exactly the destinations whose text changes are rewritten. part 2: a save over a complete previous file (regular file or symlink) through each user-facing route -- Kconfig.write_config(save_old=True), kconfgen.core.write_config (= kconfserver `save`), MenuConfigApp._do_save -- with a symbolic crash point (before any mutating operation or inside a write after p characters)",
         "thorough": "more trees and partitions",
     },
     "outside": ["crash = process death between Python-level file operations or inside a write(); no fsync semantics", "kconfgen formats docs / report / cdep_tree (cdep_tree = sync_deps, see C12)"],
@@ -124,6 +124,22 @@ def unchanged(ctx, *args):
     return True
 
 
+def _save_route(via):
+    """the three ways a user saves a configuration over an existing sdkconfig"""
+    if via == "gen":  # kconfserver's `save` request and kconfgen's `config` output go through this wrapper
+        return lambda k, dest: G.write_config(k, dest)
+    if via == "app":  # the menuconfig application's save
+        import types
+        from esp_menuconfig.app import MenuConfigApp
+
+        def go(k, dest):
+            me = types.SimpleNamespace(state=types.SimpleNamespace(kconf=k, saved=False), notify=lambda *a, **kw: None)
+            MenuConfigApp._do_save(me, dest)
+
+        return go
+    return lambda k, dest: k.write_config(dest, save_old=True)
+
+
 def crashsave(ctx, *args):
     tid, dom, slots, vals = decode_state(ctx, args)
     n = ctx["nstate"]
@@ -131,9 +147,12 @@ def crashsave(ctx, *args):
     fs = MemFS()
     _install(fs)
     fs.dirs.add("/m/proj")
+    fs.dirs.add("/m/scratch")
     k = ST.build(tid)
     ST.apply_state(k, slots, vals)
-    P = k._config_contents(None)
+    save = _save_route(ctx.get("via", "core"))
+    save(k, "/m/scratch/p")
+    P = fs.read("/m/scratch/p")
     dest = "/m/proj/sdkconfig"
     if ctx["symlink"]:
         fs.dirs.add("/m/real")
@@ -143,10 +162,11 @@ def crashsave(ctx, *args):
         fs.put(dest, P)
     odom = Dom.from_json(ctx["odom"])
     _apply_op(k, slots[ctx["target"]], odom, ok, ov)
-    Q = k._config_contents(None)
+    save(k, "/m/scratch/q")
+    Q = fs.read("/m/scratch/q")
     fs.arm(None if crash < 0 else crash, (0, 1, 9)[short])
     try:
-        k.write_config(dest, save_old=True)
+        save(k, dest)
     except Crash:
         cur = fs.read(dest)
         old = fs.read(dest + ".old")
@@ -177,6 +197,6 @@ def jobs(tier, seed, excluded=()):
         for t in targets[:nt]:
             out += state_jobs("C13", "vk.props.c13", "unchanged", [tid], dom, budget, 1, tmo, rng, {"target": t, "odom": odom.to_json(), "renames": ren}, tag="regen-" + slots[t].name, extra_params=[("ok", "int"), ("ov", "int")], extra_pre="0 <= ok <= 2 and " + op_value_bounds(slots[t], odom), extra_samples=lambda r: [r.randint(0, 2), 0], must_free=lambda a, b, t=t: [b[t].name])
         for t in targets[:nt]:
-            for sym in (False, True):
-                out += state_jobs("C13", "vk.props.c13", "crashsave", [tid], dom, budget, 1, tmo, rng, {"target": t, "odom": odom.to_json(), "symlink": sym}, tag="save-%s-%s" % ("link" if sym else "file", slots[t].name), extra_params=[("ok", "int"), ("ov", "int"), ("crash", "int"), ("short", "int")], extra_pre="0 <= ok <= 2 and %s and -1 <= crash <= 6 and 0 <= short <= 2" % op_value_bounds(slots[t], odom), extra_samples=lambda r: [r.randint(0, 2), 0, r.randint(-1, 5), r.randint(0, 2)], must_free=lambda a, b, t=t: [b[t].name])
+            for sym, via in ((False, "core"), (True, "core"), (False, "gen"), (True, "gen"), (False, "app")):
+                out += state_jobs("C13", "vk.props.c13", "crashsave", [tid], dom, budget, 1, tmo, rng, {"target": t, "odom": odom.to_json(), "symlink": sym, "via": via}, tag="save-%s-%s-%s" % (via, "link" if sym else "file", slots[t].name), extra_params=[("ok", "int"), ("ov", "int"), ("crash", "int"), ("short", "int")], extra_pre="0 <= ok <= 2 and %s and -1 <= crash <= 6 and 0 <= short <= 2" % op_value_bounds(slots[t], odom), extra_samples=lambda r: [r.randint(0, 2), 0, r.randint(-1, 5), r.randint(0, 2)], must_free=lambda a, b, t=t: [b[t].name])
     return out
